@@ -46,3 +46,25 @@ Theorem is_watching_is_the_translated_source e w :
   is_watching e w = gen_is_watching (match watch_all w with [] => false | _ :: _ => true end)
                                     (existsb (fun p => match matches_offer (fst p) e with Ok true => true | _ => false end) (watched w)).
 Proof. unfold is_watching, gen_is_watching. destruct (watch_all w); reflexivity. Qed.
+
+(* ------------------------------------------------------------------ service.py: the reply decision of SimpleService.message_received *)
+From PS Require Import Model.ServiceRecv.
+Definition reply_of (m : someip) (h : hres) (g : greply) : option someip :=
+  match g with
+  | GNoReply => None
+  | GError rc => Some (error_response m rc)
+  | GPositive => match h with HBytes p => Some (positive_response m p) | _ => None end
+  end.
+Theorem service_receive_is_the_translated_source svc_id ver methods m mc h :
+  service_receive svc_id ver methods m mc h
+  = let '(g, called) := gen_service_receive svc_id ver (memN (m_mid m) methods) m mc
+                          (match h with HMalformed => true | _ => false end) (match h with HBytes _ => true | _ => false end) in
+    (reply_of m h g, called).
+Proof.
+  unfold service_receive, gen_service_receive. destruct mc; [reflexivity|].
+  destruct (negb (m_sid m =? svc_id)); [reflexivity|]. destruct (negb (m_iv m =? ver)); [reflexivity|].
+  destruct (negb (memN (m_mid m) methods)); [reflexivity|].
+  destruct (negb ((m_mt m =? MT_REQUEST) || (m_mt m =? MT_REQUEST_NO_RETURN))); [reflexivity|].
+  destruct (negb (m_rc m =? RC_E_OK)); [reflexivity|].
+  destruct h as [p| |]; cbn [andb reply_of]; [destruct (m_mt m =? MT_REQUEST); reflexivity|reflexivity|reflexivity].
+Qed.
